@@ -133,11 +133,14 @@ where
                 }
             }
             Op::Advance(k) => {
-                let got = deque.advance(k as usize);
-                let want = (k as usize).min(model.len());
+                // The top of the u16 range stands for the top of the usize range (advance(usize::MAX)
+                // is how one says "drop everything").
+                let count = if k >= 65_500 { usize::MAX - (65_535 - k as usize) } else { k as usize };
+                let got = deque.advance(count);
+                let want = count.min(model.len());
                 model.drain(..want);
                 if got != want {
-                    return Err(format!("advance({k}) returned {got}, reference {want}"));
+                    return Err(format!("advance({count}) returned {got}, reference {want}"));
                 }
             }
             Op::Clear => {
@@ -418,7 +421,7 @@ fn op_strategy() -> impl Strategy<Value = Op> {
         8 => any::<u8>().prop_map(Op::Push),
         3 => Just(Op::PopFront),
         3 => Just(Op::PopBack),
-        3 => prop_oneof![0u16..4, 0u16..12, 0u16..300].prop_map(Op::Advance),
+        3 => prop_oneof![6 => 0u16..4, 4 => 0u16..12, 3 => 0u16..300, 1 => 65_500u16..=65_535, 1 => Just(u16::MAX)].prop_map(Op::Advance),
         1 => Just(Op::Clear),
         1 => Just(Op::Slide),
         1 => any::<u8>().prop_map(Op::SetFront),
